@@ -40,6 +40,13 @@ class State:
         s.attrs = dict(self.attrs)
         s.log = self.log  # shared on purpose: accesses of all paths of one iteration are collected
         s.ghost = dict(self.ghost)
+        memo = {}
+        for k, v in s.vars.items():
+            if type(v).__name__ == "SDs":
+                if id(v) not in memo:
+                    c = type(v)(v.name, dict(v.vars), dict(v.coords), dict(v.attrs), dict(v.sizes))
+                    memo[id(v)] = c
+                s.vars[k] = memo[id(v)]
         return s
 
     def assume(self, c):
